@@ -216,9 +216,10 @@ func isCharClassPlus(re *syntax.Regexp) bool {
 }
 
 // extractLiteral extracts bytes from a Literal node.
-// Returns nil if not a literal.
+// Returns nil if not a literal, or if the literal is case-insensitive
+// (the byte comparison in MatchAnchoredLiteral is exact).
 func extractLiteral(re *syntax.Regexp) []byte {
-	if re.Op != syntax.OpLiteral {
+	if re.Op != syntax.OpLiteral || re.Flags&syntax.FoldCase != 0 {
 		return nil
 	}
 	// Convert runes to bytes (assuming ASCII for now)
